@@ -386,6 +386,8 @@ def prepare_label(s: str, convert_unicode: bool, to_snake_case: bool) -> str:
     if not convert_unicode:
         # \w is wider than the characters Python accepts in identifiers (e.g. numeric characters of category No)
         s = "".join(c for c in s if ("_" + c).isidentifier())
+        # Characters that the removed ones kept apart can combine (conjoining jamo around a hyphen): normalize what is left
+        s = unicodedata.normalize("NFKC", s)
     # A label has to start with a letter: spell out a leading digit and move a leading underscore to the end
     # (pydantic and attrs treat a name with a leading underscore as private) until it does
     while s.strip("_") and not (s[0] != "_" and s[0].isidentifier()):
